@@ -300,5 +300,7 @@ def main(tier):
     rule_B(ck, units)
     rule_C(ck, units)
     rule_D(ck, units)
+    import c11
+    c11.rule_F(ck, units)      # global reductions use the operator of the local accumulation (shared with C11)
     ck.assumptions += ['configuration is equal on all ranks', 'convergence, the distributed aggregation being a partition, distributed RAP and the direct coarse solve are not decided']
     return ck.finish()
